@@ -40,6 +40,21 @@ class Machine:
         self.F = F          # facts: when given, calls of crate functions whose HIR is known are evaluated (inlined), to a depth of 4
         self.depth = depth
 
+    def _enum_order(self, recv_node, a, b):
+        """Ordering of two values of a field-less enum whose PartialOrd/Ord is derived: by declaration order of the variants"""
+        if not (isinstance(a, str) and isinstance(b, str)) or isinstance(a, Sym) or isinstance(b, Sym):
+            return None
+        ty = str(hir.strip(recv_node).get("ty") or "").replace("&", "").strip()
+        adt = self.F.adt(ty)
+        if adt is None:
+            return None
+        names = [v["name"] for v in adt.get("variants") or []]
+        derived = any(i.get("self_adt") == ty and i.get("trait") in ("std::cmp::Ord", "std::cmp::PartialOrd") and i.get("derived") for i in self.F.impls())
+        if not derived or a not in names or b not in names:
+            return None
+        ia, ib = names.index(a), names.index(b)
+        return "Less" if ia < ib else "Greater" if ia > ib else "Equal"
+
     def _inline(self, path, args):
         """Evaluate a crate function on already evaluated arguments; its recorded events are appended to ours.  Returns (done, value)."""
         if self.F is None or self.depth >= 4 or not path or not self.F.has(path):
@@ -117,7 +132,7 @@ class Machine:
                 return self.env[l]
             d = hir.res_def(e) or ""
             return hir.last(d)
-        if k in ("ref", "cast"):
+        if k in ("ref", "cast", "addr"):
             return self.ev(e["e"])
         if k == "un":
             v = self.ev(e["a"])
@@ -167,6 +182,12 @@ class Machine:
             args = [self.ev(a) for a in e["args"]]
             if e["m"] in self.transparent and not args:
                 return recv
+            if e["m"] in ("cmp", "partial_cmp") and len(args) == 1 and self.F is not None:
+                o = self._enum_order(e["recv"], recv, args[0])
+                if o is not None:
+                    return o if e["m"] == "cmp" else ctor("Some", o)
+            if e["m"] == "matches" and False:
+                pass
             done, val = self._inline(e.get("def"), [recv] + args)
             if done:
                 return val
